@@ -402,4 +402,6 @@ func c16(p *model.Prog, r *report.Result) {
 	c16r6(p, r)
 	c16r78(p, r)
 	c16r9(p, r)
+	c16r10(p, r, "C16.R10")
+	c16r11(p, r)
 }
